@@ -209,6 +209,8 @@ class Eval:
                     return fin(tm.ZERO)
                 if name in ('sqrt', 'log'):
                     return PINF if pos else NAN
+                if name == 'cbrt':
+                    return PINF if pos else NINF
                 return NAN
             return fin(u)
         raise ValueError('extreal: op %s' % op)
